@@ -60,7 +60,13 @@ def is_scalar(t):
 
 
 @register_qbytestensor_op([torch.ops.aten._to_copy, torch.ops.aten.to])
-def _to_copy(op, t, dtype=None, **kwargs):
+def _to_copy(op, t, *args, dtype=None, **kwargs):
+    if len(args) > 0:
+        # aten.to is only received with the positional arguments of its overloads (to.dtype, to.device, to.other)
+        # when it is not decomposed, i.e. in inference mode: convert the dequantized values
+        if dtype is not None:
+            return op(t.dequantize(), *args, dtype=dtype, **kwargs)
+        return op(t.dequantize(), *args, **kwargs)
     if dtype is not None and (not dtype.is_floating_point or dtype.itemsize == 1):
         # The scale cannot be converted to an integer or 8-bit float type: convert the dequantized values
         return op(t.dequantize(), dtype=dtype, **kwargs)
